@@ -6,6 +6,7 @@
 #pragma once
 
 #include <tao/pegtl.hpp>
+#include <tao/pegtl/contrib/state_control.hpp>
 
 namespace vf
 {
@@ -441,6 +442,9 @@ namespace vf
    template< typename Rule >
    using mi_control = typename tao::pegtl::must_if< verrors, lcontrol, false >::template control< Rule >;
 
+   template< typename Rule >
+   using sc_control = typename tao::pegtl::state_control< lcontrol >::template control< Rule >;
+
    // ------------------------------------------------------------------ states and switchable action classes (C13)
 
    struct ostate
@@ -534,7 +538,64 @@ namespace vf
       out[ 5 ] = in.column();
    }
 
+   // ------------------------------------------------------------------ contrib/state_control.hpp (C08): a state object that sees every hook
+   struct hstate
+   {
+      template< typename Rule >
+      static constexpr bool enable = ( rid< Rule >::value >= 0 );
+
+      template< typename Rule, typename ParseInput, typename... States >
+      void start( const ParseInput& in, States&&... /*unused*/ ) { verif_event( EV_START, 200 + rid< Rule >::value, in.byte(), 0 ); }
+      template< typename Rule, typename ParseInput, typename... States >
+      void success( const ParseInput& in, States&&... /*unused*/ ) { verif_event( EV_SUCCESS, 200 + rid< Rule >::value, in.byte(), 0 ); }
+      template< typename Rule, typename ParseInput, typename... States >
+      void failure( const ParseInput& /*unused*/, States&&... /*unused*/ ) { verif_event( EV_FAILURE, 200 + rid< Rule >::value, 0, 0 ); }
+      template< typename Rule, typename ParseInput, typename... States >
+      void unwind( const ParseInput& /*unused*/, States&&... /*unused*/ ) { verif_event( EV_UNWIND, 200 + rid< Rule >::value, 0, 0 ); }
+      template< typename Rule, typename ParseInput, typename... States >
+      void raise( const ParseInput& /*unused*/, States&&... /*unused*/ ) { verif_event( EV_RAISE, 200 + rid< Rule >::value, 0, 0 ); }
+      template< typename Rule, typename Ambient, typename... States >
+      void raise_nested( const Ambient& /*unused*/, States&&... /*unused*/ ) { verif_event( EV_RAISE, 200 + rid< Rule >::value, 1, 0 ); }
+      template< typename Rule, typename ParseInput, typename... States >
+      void apply( const ParseInput& /*unused*/, States&&... /*unused*/ ) { verif_event( EV_APPLY, 200 + rid< Rule >::value, 0, 0 ); }
+      template< typename Rule, typename ParseInput, typename... States >
+      void apply0( const ParseInput& /*unused*/, States&&... /*unused*/ ) { verif_event( EV_APPLY0, 200 + rid< Rule >::value, 0, 0 ); }
+   };
+
+   template< typename Rule, apply_mode A, rewind_mode M, template< typename... > class Action, template< typename... > class Control, typename Input = eager_in >
+   inline void run_hs( const char* b, unsigned long n, unsigned long start, unsigned long* out )
+   {
+      Input in( b, b + n, "" );
+      in.bump_in_this_line( start );
+      hstate hs;
+      out[ 2 ] = 0;
+      out[ 3 ] = 0;
+      out[ 6 ] = 0;
+      out[ 7 ] = 0;
+      try {
+         out[ 0 ] = Control< Rule >::template match< A, M, Action, Control >( in, hs );
+      }
+      catch( const verif_exc& e ) {
+         out[ 0 ] = 2;
+         out[ 2 ] = e.id;
+         out[ 3 ] = e.byte;
+         out[ 6 ] = e.line;
+         out[ 7 ] = e.column;
+      }
+      catch( const foreign_exc& e ) {
+         out[ 0 ] = 3;
+         out[ 2 ] = e.id;
+      }
+      out[ 1 ] = in.byte();
+      out[ 4 ] = in.line();
+      out[ 5 ] = in.column();
+   }
+
 }  // namespace vf
+
+#define VF_WRAP_HS( name, ... ) \
+   extern "C" __attribute__( ( noinline ) ) void name( const char* b, unsigned long n, unsigned long s, unsigned long* o ) { vf::run_hs< __VA_ARGS__ >( b, n, s, o ); }
+
 
 #define VF_WRAP_ST( name, ... ) \
    extern "C" __attribute__( ( noinline ) ) void name( const char* b, unsigned long n, unsigned long s, unsigned long* o ) { vf::run_st< __VA_ARGS__ >( b, n, s, o ); }
